@@ -376,3 +376,47 @@ def impl_lines_d(case, res):
     fin = re.sub(r"exc:\w+", "exc:ValueError", fin)
     out.append(fin)
     return out
+
+
+# ------------------------------------------------------------------ block executor with cache_directory
+# _execute_task_with_cache instead of _execute_task: with distinct calls (every lookup a miss) it
+# must behave like _execute_task apart from the directory / HDF5 operations, so the run is compared
+# with Model/Exec.v after projecting those operations away (enabled sets are not compared: a
+# thread parked at a directory operation is enabled where the model's is already at the next point)
+FS_LABELS = ("h5", "listdir", "exists", "rename", "remove", "iofault")
+
+
+def gen_cblock_case(rng, max_calls=4, allow_fail=True):
+    c = gen_block_case(rng, max_calls=max_calls, allow_fail=allow_fail)
+    c["cache"] = True
+    if rng.random() < 0.3:
+        c["iofault"] = rng.randint(1, 14)      # the k-th HDF5 operation fails (disk full)
+    return c
+
+
+def project_fs(res):
+    r = dict(res)
+    r["trace"] = [t for t in res["trace"] if t[2][0] not in FS_LABELS]
+    return r
+
+
+def coq_expr_c(case, res):
+    return coq_expr(case, project_fs(res))
+
+
+def impl_lines_c(case, res):
+    return impl_lines(case, project_fs(res))
+
+
+def compare_noen(case, res, coq_out):
+    if res["verdict"] not in ("done", "deadlock", "quiescent"):
+        return {"kind": "harness", "verdict": res["verdict"], "error": res.get("error")}
+    drop = lambda ln: ln if ln.startswith("F|") else ln.split("|", 1)[1]  # noqa
+    il = [drop(x) for x in impl_lines_c(case, res)]
+    ml = [drop(x) for x in coq_out.split(";")]
+    for k, (a, b) in enumerate(zip(il, ml)):
+        if a != b:
+            return {"kind": "diverge", "step": k, "impl": a, "model": b, "prefix": il[max(0, k - 6):k]}
+    if len(il) != len(ml):
+        return {"kind": "length", "impl": len(il), "model": len(ml), "impl_tail": il[-2:], "model_tail": ml[-2:]}
+    return None
